@@ -51,8 +51,8 @@ CHECKS = [
         "change; uncertain components only as fallback. The select loop _run (loop invariant + per-iteration transition clauses): "
         "every event goes to its handler, the status is re-evaluated after each, exactly the changes are sent, and a data timer "
         "that fires while its own stream is stale marks that stream incorrect.",
-        "frequenz.channels select()/selected_from assumed (any order and number of events); the pool tracker's async update loop is "
-        "not under contract; library timers assumed "
+        "frequenz.channels select()/selected_from assumed (any order and number of events); the pool tracker's update loop is under "
+        "contract with its merged status stream scripted; library timers assumed "
         "to fire max_data_age after the last reset; datetime.now() modelled as arbitrary non-decreasing instants; library enum "
         "member lists declared in the sidecar and probed natively on every run",
         "contract-based deductive verification of atomic handlers (z3), class-invariant style", "DESIGN.md 3 (C16)"),
